@@ -4,3 +4,4 @@ pub mod rec;
 pub mod seams;
 pub mod sim;
 pub mod conc;
+pub mod atomics;
